@@ -40,7 +40,10 @@ HasNul(bs) == \E i \in 1..Len(bs) : bs[i] = "nul"
 HashOf(cls, te, maxlen, p) ==
     LET bs == Bytes(p) IN
     IF Len(bs) > maxlen THEN <<"SizeError">>
-    ELSE IF cls.nul = "reject" /\ HasNul(bs) THEN <<"NullError">>
+    ELSE IF cls.nul = "reject" /\ HasNul(bs)
+         THEN (IF cls.trunc > 0 /\ Len(bs) > cls.trunc /\ te /\ ~cls.reject
+               THEN <<"NullOrTruncateError">>      \* two reasons to refuse: the property does not rank them
+               ELSE <<"NullError">>)
     ELSE IF cls.trunc > 0 /\ Len(bs) > cls.trunc /\ cls.reject THEN <<"SizeError">>
     ELSE IF cls.trunc > 0 /\ Len(bs) > cls.trunc /\ te THEN <<"TruncateError">>
     ELSE <<"ok", Canon(cls, bs)>>
